@@ -297,6 +297,67 @@ func ruleC15(p *Program, r *Run) {
 	})
 	r.Check(nAppend == c.sliceSites(fd, info), "C15/provenance", fn+" every slice of the source is appended to the result", p.Pos(fd.Pos()), "all pieces are kept", "a piece of the source is sliced but not appended (or appended from something else): text would be lost")
 
+	// every token is examined (round 10): the loop that looks for the semicolons has no way out before the last
+	// token - no break of that loop, no return and no goto inside it. A splitter that stops early (at an error token,
+	// say) leaves the semicolons behind it inside one piece, while the lexer still reports them as tokens.
+	nLoops := 0
+	ast.Inspect(fd.Body, func(n ast.Node) bool {
+		var body *ast.BlockStmt
+		switch v := n.(type) {
+		case *ast.RangeStmt:
+			body = v.Body
+		case *ast.ForStmt:
+			body = v.Body
+		default:
+			return true
+		}
+		mentionsSemi := false
+		ast.Inspect(body, func(m ast.Node) bool {
+			if id, ok := m.(*ast.Ident); ok && info.Uses[id] == types.Object(semiC) {
+				mentionsSemi = true
+			}
+			return !mentionsSemi
+		})
+		if !mentionsSemi {
+			return true
+		}
+		nLoops++
+		label := ""
+		if ls, ok := p.Parent(n).(*ast.LabeledStmt); ok {
+			label = ls.Label.Name
+		}
+		var exits []string
+		var walk func(m ast.Node, inner bool)
+		walk = func(m ast.Node, inner bool) {
+			ast.Inspect(m, func(x ast.Node) bool {
+				switch v := x.(type) {
+				case *ast.FuncLit:
+					return false
+				case *ast.ForStmt, *ast.RangeStmt, *ast.SwitchStmt, *ast.TypeSwitchStmt, *ast.SelectStmt:
+					if x != m {
+						walk(x, true)
+						return false
+					}
+				case *ast.ReturnStmt:
+					exits = append(exits, "return at "+p.Pos(v.Pos()))
+				case *ast.BranchStmt:
+					switch {
+					case v.Tok == token.GOTO:
+						exits = append(exits, "goto at "+p.Pos(v.Pos()))
+					case v.Tok == token.BREAK && v.Label == nil && !inner:
+						exits = append(exits, "break at "+p.Pos(v.Pos()))
+					case v.Tok == token.BREAK && v.Label != nil && v.Label.Name == label:
+						exits = append(exits, "break at "+p.Pos(v.Pos()))
+					}
+				}
+				return true
+			})
+		}
+		walk(body, false)
+		r.Check(len(exits) == 0, "C15/provenance", fmt.Sprintf("%s semicolon loop #%d examines every token", fn, nLoops), p.Pos(n.Pos()), "no break, return or goto leaves the loop that looks for the semicolons", "the loop that looks for the semicolons can be left before the last token ("+strings.Join(exits, ", ")+"): a semicolon token behind that point is not a cut, so the pieces are fewer than the lexer's semicolons plus one and a piece contains a semicolon token")
+		return true
+	})
+
 	// Parse's own splitter: the function that hands Parse one statement's tokens must look for TokenSemi only.
 	pFd0 := p.MustFunc(pkg, "Parse")
 	var splitter *types.Func
